@@ -216,7 +216,7 @@ def r2(ctx):
 
 def r3(ctx):
     ctx.rule('C15.R3', 'an answer is stored (m_answerByKey[key] = ...) only under: answering enabled, idLen <= 4, valid '
-             'destination, source SYN(any) or a master', minimum=1)
+             'destination, source SYN(any) or a master; the store replaces an earlier answer for the same key', minimum=1)
     fn = ctx.fb.fn('ebusd::DirectProtocolHandler::setAnswer')
     ctx.touch(fn)
     n = 0
@@ -232,6 +232,15 @@ def r3(ctx):
                 missing = [a for a in need if a not in atoms]
                 ctx.ob('C15.R3', fn, nid, not missing, 'store into m_answerByKey',
                        'missing guard(s): %s' % missing if missing else 'guarded by %s' % need)
+    # a registration replaces an earlier answer for the same key: insertion forms that keep an existing element
+    # (insert / emplace / try_emplace) leave the old data in place while setAnswer reports success
+    for c in fn.all('CXXMemberCallExpr'):
+        v = fn.nodes[c]
+        base = (v.get('callee') or '').split('::')[-1]
+        if 'obj' in v and fn.key(v['obj']) == 'this.m_answerByKey' and base in ('insert', 'emplace', 'try_emplace', 'emplace_hint'):
+            n += 1
+            ctx.ob('C15.R3', fn, c, False, 'store into m_answerByKey', 'm_answerByKey.%s(...) does not replace an answer that is '
+                   'already registered under the key' % base)
     if n == 0:
         raise AnalysisBroken('C15.R3: store into m_answerByKey not found')
 
